@@ -87,14 +87,16 @@ func profileFor(prop, tier string, rng *PRNG) *Profile {
 		only("did", "didAdv", "replay")
 		boost("didAdv", 3)
 		boost("replay", 3)
-		p.PCrash, p.PBootstrap, p.CrashEnum = 0.25, 0.08, 1
+		p.PCrash, p.PBootstrap, p.CrashEnum = 0.25, 0.15, 1
+		p.Seeded = 0.7
 	case "C06":
 		only("pnft", "pnftAdv", "authz", "tamper", "multi", "rollback")
 		boost("rollback", 3)
 		boost("pnftAdv", 4)
 		boost("authz", 2)
 	case "C07":
-		only("bank", "burn", "vest", "aol")
+		boost("gov", 10)
+		only("bank", "burn", "vest", "aol", "gov")
 		boost("burn", 12)
 		boost("vest", 12)
 		boost("bank", 3)
@@ -1349,6 +1351,21 @@ func (g *Gen) famBank() {
 // whose gas limit exceeds block.max_gas are refused by every node - running, restarted or catching up - alike.
 func (g *Gen) famGov() {
 	r := g.rng
+	if r.Chance(0.35) {
+		// a proposal that spends from the community pool (fees collected so far), to an account or to the burn address:
+		// coins that arrive at the burn address inside EndBlock, after every transaction of the block
+		g.nProposals++
+		to := BurnAddress
+		if r.Chance(0.3) {
+			to = g.addr(r.Intn(NumAccounts))
+		}
+		sub := &TxSpec{Gas: 2_000_000, Msgs: []MsgSpec{{T: "gov.SubmitSpend", F: map[string]string{"proposer": g.addr(r.Intn(NumAccounts)), "recipient": to},
+			Coins: []CoinSpec{{Denom: FeeDenom, Amount: "1"}}, Coins2: []CoinSpec{{Denom: FeeDenom, Amount: []string{"1", "1000", "2500"}[r.Intn(3)]}}}}}
+		vote := &TxSpec{Gas: 2_000_000, Msgs: []MsgSpec{{T: "gov.Vote", F: map[string]string{"proposal": fmt.Sprint(g.nProposals), "voter": g.addr(0), "option": "yes"}}}}
+		g.emit(sub)
+		g.emit(vote)
+		return
+	}
 	maxGas := []string{"-1", "100000000", "29999999", "40000000", "1000000000000"}[r.Pick([]int{2, 3, 3, 2, 1})]
 	maxBytes := []string{"22020096", "1000000", "200000"}[r.Intn(3)]
 	deposit := []string{"1", "1", "5", "0"}[r.Intn(4)]
@@ -1675,8 +1692,39 @@ func (g *Gen) famRollback() {
 	toks := g.planTokens()
 	topics := g.planTopics()
 	act := g.planDids(true)
-	kind := r.Intn(6)
+	kind := r.Intn(9)
 	switch {
+	case kind == 6: // a topic created on discarded state: afterwards it does not exist (no writer can be added, it can be created)
+		o := g.addr(r.Intn(5))
+		t := fmt.Sprintf("rbt%d", g.next)
+		m1 = M("aol.CreateTopic", "topic", t, "owner", o)
+		m2 = M("aol.AddWriter", "topic", t, "owner", o, "writer", g.addr(6), "moniker", "rb")
+		follow = []MsgSpec{M("aol.AddWriter", "topic", t, "owner", o, "writer", g.addr(7), "moniker", "after"), g.recordSpec(o, t, g.addr(6), ""),
+			M("aol.CreateTopic", "topic", t, "owner", o), M("aol.AddWriter", "topic", t, "owner", o, "writer", g.addr(7), "moniker", "now")}
+	case kind == 7: // a denom created (and minted into) on discarded state: afterwards anybody else may create it, its would-be owner has no rights
+		a, b := g.addr(r.Intn(4)), g.addr(5+r.Intn(4))
+		d := fmt.Sprintf("rbd%d", g.next)
+		m1 = M("pnft.CreateDenom", "id", d, "name", "n", "symbol", "s", "creator", a)
+		m2 = M("pnft.Mint", "denom", d, "id", "t1", "name", "n", "creator", a)
+		follow = []MsgSpec{M("pnft.Mint", "denom", d, "id", "t2", "name", "n", "creator", a), M("pnft.CreateDenom", "id", d, "name", "other", "symbol", "o", "creator", b),
+			M("pnft.Mint", "denom", d, "id", "t3", "name", "n", "creator", a), M("pnft.UpdateDenom", "id", d, "name", "hijack", "updater", a), M("pnft.Mint", "denom", d, "id", "t4", "name", "n", "creator", b)}
+	case kind == 8: // a DID created on discarded state: afterwards it does not exist
+		k := -1
+		for i := SharedKeys; i < NumDidKeys; i++ {
+			if g.plan.Did[g.env.Dids[i]] == nil {
+				k = i
+			}
+		}
+		if k < 0 {
+			return
+		}
+		did := g.env.Dids[k]
+		mid := fmt.Sprintf("%s#key%d", did, k)
+		from := g.addr(r.Intn(4))
+		m1 = MsgSpec{T: "did.Create", F: map[string]string{"did": did, "from": from}, Doc: g.didDoc(did, []int{k}, 0), Proof: &ProofSpec{Key: k, MethodID: mid, Seq: "0"}}
+		m2 = MsgSpec{T: "did.Update", F: map[string]string{"did": did, "from": from}, Doc: g.didDoc(did, []int{k}, 0), Proof: &ProofSpec{Key: k, MethodID: mid, Seq: "0"}}
+		follow = []MsgSpec{{T: "did.Update", F: map[string]string{"did": did, "from": from}, Doc: g.didDoc(did, []int{k}, 0), Proof: &ProofSpec{Key: k, MethodID: mid, Seq: "cur"}},
+			{T: "did.Deactivate", F: map[string]string{"did": did, "from": from}, Proof: &ProofSpec{Key: k, MethodID: mid, Seq: "cur"}}}
 	case kind == 5 && len(topics) > 0: // appends on discarded state, then a committed append: offsets must not skip
 		t := topics[r.Intn(len(topics))]
 		ws := g.planWriters(t[0], t[1])
